@@ -354,8 +354,37 @@ def _closure_of(locals_, blocks, l, depth=0):
     rv = st["rv"]
     if rv["k"] == "use" and rv["x"].get("k") in ("copy", "move") and all(pe == "deref" for pe in rv["x"]["p"]):
         return _closure_of(locals_, blocks, rv["x"]["l"], depth + 1)
+    if rv["k"] == "use" and rv["x"].get("k") in ("copy", "move"):
+        cap = _captured_operand(locals_, blocks, rv["x"])          # moved out of an enclosing closure's environment
+        if cap is not None and cap.get("k") in ("copy", "move") and all(pe == "deref" for pe in cap["p"]):
+            return _closure_of(locals_, blocks, cap["l"], depth + 1)
     if rv["k"] in ("ref", "rawptr") and all(pe == "deref" for pe in rv["place"]["p"]):
         return _closure_of(locals_, blocks, rv["place"]["l"], depth + 1)
+    return None
+
+
+def _captured_operand(locals_, blocks, o, depth=0):
+    """`(env.i)` where env stands for a closure literal of this view: the operand captured as field i"""
+    if depth > 8 or o.get("k") not in ("copy", "move"):
+        return None
+    flds = [pe for pe in o["p"] if pe != "deref"]
+    if len(flds) != 1 or not isinstance(flds[0], dict) or "f" not in flds[0]:
+        return None
+    l = o["l"]
+    for _ in range(8):
+        st = _single_def_stmt(blocks, l)
+        if st is None:
+            return None
+        rv = st["rv"]
+        if rv["k"] == "agg" and rv.get("agg") == "closure":
+            i = flds[0]["f"]
+            return rv["ops"][i] if i < len(rv["ops"]) else None
+        if rv["k"] == "use" and rv["x"].get("k") in ("copy", "move") and all(pe == "deref" for pe in rv["x"]["p"]):
+            l = rv["x"]["l"]
+        elif rv["k"] in ("ref", "rawptr") and all(pe == "deref" for pe in rv["place"]["p"]):
+            l = rv["place"]["l"]
+        else:
+            return None
     return None
 
 
@@ -371,6 +400,9 @@ def _fn_item_of(locals_, blocks, o, depth=0):
             return None
         rv = st["rv"]
         if rv["k"] == "use":
+            if rv["x"].get("k") in ("copy", "move") and [pe for pe in rv["x"]["p"] if pe != "deref"]:
+                cap = _captured_operand(locals_, blocks, rv["x"])
+                return _fn_item_of(locals_, blocks, cap, depth + 1) if cap is not None else None
             return _fn_item_of(locals_, blocks, rv["x"], depth + 1)
         if rv["k"] in ("ref", "rawptr") and all(pe == "deref" for pe in rv["place"]["p"]):
             return _fn_item_of(locals_, blocks, {"k": "copy", "l": rv["place"]["l"], "p": []}, depth + 1)
@@ -387,6 +419,14 @@ def _resolve_closure_call(prog, t, locals_, blocks):
     if st is None or st["rv"]["k"] != "agg" or st["rv"].get("agg") != "tuple":
         return False
     ops = st["rv"]["ops"]
+    # the callable may itself be a captured variable of an enclosing (folded-in) closure: `(env.i)`
+    for _ in range(4):
+        cap = _captured_operand(locals_, blocks, recv)
+        if cap is None:
+            break
+        recv = cap
+    if recv.get("k") in ("copy", "move") and [pe for pe in recv["p"] if pe != "deref"]:
+        return False      # some other projection: not a callable we can name
     # a function item handed around as a value: call it directly
     fitem = _fn_item_of(locals_, blocks, recv)
     if fitem is not None:
